@@ -20,6 +20,14 @@ func verifDir() string {
 	if d := os.Getenv("VERIF_DIR"); d != "" {
 		return d
 	}
+	// the tree this binary was built in (bin/vcheck): a copy of /verif run from elsewhere (a snapshot) reads its
+	// own harnesses and writes its own evidence instead of touching /verif
+	if exe, err := os.Executable(); err == nil {
+		root := filepath.Dir(filepath.Dir(exe))
+		if _, err := os.Stat(filepath.Join(root, "harness")); err == nil {
+			return root
+		}
+	}
 	return "/verif"
 }
 func repoDir() string {
